@@ -63,6 +63,8 @@ pub struct Instance {
     pub script_writes: bool,
     pub pending_budget: u8,
     pub cancel_budget: u8,
+    /// async only: how many 30 s clock steps the environment may take per session
+    pub tick_budget: u8,
     /// compare with the other implementation on histories both can execute
     pub differential: bool,
 }
@@ -86,6 +88,7 @@ impl Instance {
             script_writes: false,
             pending_budget: 0,
             cancel_budget: 0,
+            tick_budget: 0,
             differential: false,
         }
     }
@@ -133,6 +136,20 @@ pub struct E2Model {
     pub samples: Arc<Mutex<Vec<Value>>>,
 }
 
+/// (ticks taken, ticks in a row since the last transport event / cancel)
+fn ticks(hist: &[Act]) -> (u8, u8) {
+    let total = hist.iter().filter(|a| matches!(a, Act::Tick)).count() as u8;
+    let mut streak = 0u8;
+    for a in hist.iter().rev() {
+        match a {
+            Act::Tick => streak += 1,
+            Act::ReadPending | Act::WritePending => {},
+            _ => break,
+        }
+    }
+    (total, streak)
+}
+
 fn spend(hist: &[Act]) -> (u8, u8, u8, bool) {
     let mut fails = 0;
     let mut pend = 0;
@@ -160,6 +177,13 @@ fn enabled(inst: &Instance, hist: &[Act], r: &RunResult) -> Vec<Act> {
         return out;
     }
     let is_async = inst.imp == Impl::Tokio;
+    if is_async && r.asked.is_some() {
+        let (total, streak) = ticks(hist);
+        // never let the documented read timeout elapse: (streak + 1) steps must stay below it
+        if total < inst.tick_budget && (streak as u64 + 1) * super::e2::world::TICK_SECS < insim::net::DEFAULT_TIMEOUT_SECS {
+            out.push(Act::Tick);
+        }
+    }
     match r.asked {
         Some(Side::Read) => {
             let inbound_len: usize = inst.frames.iter().map(|f| f.len()).sum();
@@ -241,7 +265,7 @@ fn enabled(inst: &Instance, hist: &[Act], r: &RunResult) -> Vec<Act> {
             ks.sort();
             ks.dedup();
             out.extend(ks.into_iter().map(Act::Accept));
-            if is_async && pend < inst.pending_budget {
+            if pend < inst.pending_budget {
                 out.push(Act::WritePending);
             }
             // only a pending READ is dropped by the caller (the property is about reads; a write
@@ -279,6 +303,9 @@ fn canon_of(hist: &[Act], r: &RunResult, bad: bool) -> (u64, u64) {
     bytes.push(bad as u8);
     bytes.extend_from_slice(&[fails, pend, canc, eof as u8, r.finished as u8]);
     bytes.extend_from_slice(&(r.calls_started as u32).to_le_bytes());
+    let (tk, streak) = ticks(hist);
+    bytes.extend_from_slice(&[tk, streak]);
+    bytes.extend_from_slice(&r.ticks_in_call.to_le_bytes());
     bytes.extend_from_slice(&(r.results.len() as u32).to_le_bytes());
     bytes.extend_from_slice(&(r.unanswered.map(|x| x as u32 + 1).unwrap_or(0)).to_le_bytes());
     let a = crate::report::h64(&bytes);
